@@ -46,7 +46,30 @@ const (
 	cThrow
 )
 
+// jNaN is the payload of the number NaN (the other numbers of the fragment are 0..9)
+const jNaN = 200
+
+// jToNumber: undefined NaN, null 0, booleans 0/1, the empty string 0; other strings and objects are outside the fragment
+func jToNumber(v jv) (jv, bool) {
+	switch v.t {
+	case jU:
+		return jv{jI, jNaN}, true
+	case jN:
+		return jv{jI, 0}, true
+	case jB, jI:
+		return jv{jI, v.n}, true
+	case jS:
+		if v.n == 0 {
+			return jv{jI, 0}, true
+		}
+	}
+	return jv{}, false
+}
+
 func jTruthy(v jv) bool {
+	if v.t == jI && v.n == jNaN {
+		return false
+	}
 	switch v.t {
 	case jU, jN:
 		return false
@@ -63,6 +86,9 @@ func jStrictEq(a, b jv) bool {
 	}
 	if a.t == jU || a.t == jN {
 		return true
+	}
+	if a.t == jI && (a.n == jNaN || b.n == jNaN) {
+		return false
 	}
 	return a.n == b.n
 }
@@ -81,7 +107,7 @@ func (s *jstate) evalExpr(e js.IExpr) (jv, bool) {
 		return s.evalExpr(x.X)
 	case *js.Var:
 		name := string(x.Name())
-		if name == "undefined" {
+		if _, declared := s.vars[name]; name == "undefined" && !declared {
 			return jv{jU, 0}, false
 		}
 		v, ok := s.vars[name]
@@ -198,7 +224,7 @@ func (s *jstate) evalExpr(e js.IExpr) (jv, bool) {
 			} else if jNullish(l) || jNullish(r) {
 				eq = jNullish(l) && jNullish(r)
 			} else if l.t == r.t {
-				eq = l.n == r.n
+				eq = l.n == r.n && !(l.t == jI && l.n == jNaN)
 			} else {
 				s.unsupp = true // loose equality across types is outside the reference evaluator
 				return jv{}, false
@@ -216,10 +242,41 @@ func (s *jstate) evalExpr(e js.IExpr) (jv, bool) {
 				return l, true
 			}
 			return s.evalExpr(x.Y)
+		case js.BitOrToken, js.LtToken:
+			l, th := s.evalExpr(x.X)
+			if th {
+				return l, true
+			}
+			r, th := s.evalExpr(x.Y)
+			if th {
+				return r, true
+			}
+			ln, ok1 := jToNumber(l)
+			rn, ok2 := jToNumber(r)
+			if !ok1 || !ok2 {
+				s.unsupp = true
+				return jv{}, false
+			}
+			if x.Op == js.LtToken {
+				if ln.n != jNaN && rn.n != jNaN && ln.n < rn.n {
+					return jv{jB, 1}, false
+				}
+				return jv{jB, 0}, false
+			}
+			if ln.n == jNaN {
+				ln.n = 0
+			}
+			if rn.n == jNaN {
+				rn.n = 0
+			}
+			return jv{jI, ln.n | rn.n}, false
 		}
 		s.unsupp = true
 		return jv{}, false
 	case *js.CallExpr:
+		if v, handled := s.evalBuiltin(x); handled {
+			return v, false
+		}
 		callee, ok := x.X.(*js.Var)
 		if !ok {
 			s.unsupp = true
@@ -260,6 +317,51 @@ func (s *jstate) evalExpr(e js.IExpr) (jv, bool) {
 	}
 	s.unsupp = true
 	return jv{}, false
+}
+
+// evalBuiltin: isNaN(v), Math.trunc(v), Math.abs(v) of the standard library on the values of the fragment (the
+// names are not declared by the generated programs).
+func (s *jstate) evalBuiltin(x *js.CallExpr) (jv, bool) {
+	if x.Optional || len(x.Args.List) != 1 || x.Args.List[0].Rest {
+		return jv{}, false
+	}
+	kind := 0
+	if v, ok := x.X.(*js.Var); ok && string(v.Name()) == "isNaN" {
+		kind = 1
+	} else if d, ok := x.X.(*js.DotExpr); ok && !d.Optional {
+		if v, ok := d.X.(*js.Var); ok && string(v.Name()) == "Math" {
+			if string(d.Y.Data) == "trunc" {
+				kind = 2
+			} else if string(d.Y.Data) == "abs" {
+				kind = 3
+			}
+		}
+	}
+	if kind == 0 {
+		return jv{}, false
+	}
+	if _, declared := s.vars["isNaN"]; declared {
+		return jv{}, false
+	}
+	if _, declared := s.vars["Math"]; declared {
+		return jv{}, false
+	}
+	a, th := s.evalExpr(x.Args.List[0].Value)
+	if th {
+		return jv{}, false
+	}
+	n, ok := jToNumber(a)
+	if !ok {
+		s.unsupp = true
+		return jv{}, true
+	}
+	if kind == 1 {
+		if n.n == jNaN {
+			return jv{jB, 1}, true
+		}
+		return jv{jB, 0}, true
+	}
+	return n, true // the numbers of the fragment are non-negative integers or NaN: trunc and abs are the identity on them
 }
 
 // evalChain evaluates a member access as part of an optional chain: once an optional link finds a nullish base the
@@ -528,6 +630,11 @@ func jSymParams() [3]jv {
 
 func verifJSProgram(body []byte, version int) {
 	src := append(append([]byte("function m(a,b,c){"), body...), '}')
+	verifJSFunction(src, version)
+}
+
+// verifJSFunction: src is one function declaration with up to three simple parameters.
+func verifJSFunction(src []byte, version int) {
 	orig := append([]byte(nil), src...)
 	w := &vWriter{}
 	err := (&Minifier{Version: version}).Minify(nil, w, &vReader{b: src}, nil)
@@ -541,15 +648,16 @@ func verifJSProgram(body []byte, version int) {
 	s1, k1, v1, ok1 := jRun(out, params)
 	vAssert(ok1, "output parses to one function declaration")
 	vAssume(!s1.unsupp) // constructs outside the reference evaluator: not covered
-	vAssert(len(s0.trace) == len(s1.trace), "same number of host interactions")
+	cls := jKnownBuiltin(orig, out)
+	jAssertK(cls, len(s0.trace) == len(s1.trace), "same number of host interactions")
 	for i := range s0.trace {
 		a, b := s0.trace[i], s1.trace[i]
-		vAssert(a.name == b.name && len(a.args) == len(b.args), "same host interaction")
+		jAssertK(cls, a.name == b.name && len(a.args) == len(b.args), "same host interaction")
 		for j := range a.args {
-			vAssert(jvEq(a.args[j], b.args[j]), "same argument value")
+			jAssertK(cls, jvEq(a.args[j], b.args[j]), "same argument value")
 		}
 	}
-	vAssert(k0 == k1, "same completion kind")
+	jAssertK(cls, k0 == k1, "same completion kind")
 	if k0 != cNormal && !jvEq(v0, v1) {
 		// recorded finding C01-F5: two or more expression statements merged into a `return undefined` / `return void 0`
 		// tail: the undefined is dropped from the comma expression and the function returns the last operand instead
@@ -562,9 +670,9 @@ func verifJSProgram(body []byte, version int) {
 		if hasU && k0 == cReturn && v0.t == jU && k1 == cReturn {
 			vKnown("C01-F5")
 		}
-		vFail("same returned / thrown value")
+		jAssertK(cls, false, "same returned / thrown value")
 	}
-	vAssert(jvEq(s0.vars["x"], s1.vars["x"]) && jvEq(s0.vars["y"], s1.vars["y"]), "same final values of the globals")
+	jAssertK(cls, jvEq(s0.vars["x"], s1.vars["x"]) && jvEq(s0.vars["y"], s1.vars["y"]), "same final values of the globals")
 	// version gate: ?. and ?? only for targets >= 2020 (or unspecified) unless the input had them
 	if version != 0 && version < 2020 {
 		has := func(b []byte, s string) bool {
@@ -877,4 +985,77 @@ func VerifJSDanglingElse(n int) {
 		}
 	}
 	verifJSProgram(body, 0)
+}
+
+// jKnownBuiltin recognises the recorded classes C01-F83/F84/F85: a call of isNaN / Math.trunc / Math.abs on a plain
+// variable that the output replaced by an operator expression (v!=v, v|0, v<0?-v:v). The rewrites are exact for
+// numbers only (F84: for numbers below 2^31); the pinned suite expects them, so they are recorded and not repaired.
+// The classes are taken before the comparison: everything else in such a program is still compared on the paths where
+// the two forms agree (the vKnown stops the path only where they differ).
+func jKnownBuiltin(orig, out []byte) string {
+	if jHasText(orig, "isNaN(") && !jHasText(out, "isNaN(") && jHasText(out, "!=") {
+		return "C01-F83"
+	}
+	if jHasText(orig, "Math.trunc(") && !jHasText(out, "Math.trunc(") && jHasText(out, "|0") {
+		return "C01-F84"
+	}
+	if jHasText(orig, "Math.abs(") && !jHasText(out, "Math.abs(") && jHasText(out, "<0?-") {
+		return "C01-F85"
+	}
+	return ""
+}
+
+func jHasText(b []byte, s string) bool {
+	for i := 0; i+len(s) <= len(b); i++ {
+		if string(b[i:i+len(s)]) == s {
+			return true
+		}
+	}
+	return false
+}
+
+func jAssertK(cls string, cond bool, msg string) {
+	if !cond {
+		if cls != "" {
+			vKnown(cls)
+		}
+		vFail(msg)
+	}
+}
+
+var jBuiltinProgs = []string{
+	"function m(a,b,c){x=isNaN(a)}",
+	"function m(a,b,c){x=Math.trunc(a)}",
+	"function m(a,b,c){x=Math.abs(a)}",
+	"function m(a,b,c){if(isNaN(b))f(1);else g(2)}",
+	"function m(a,b,c){x=isNaN(a)?b:c}",
+	"function m(a,b,c){var isNaN=c;x=isNaN(a)}",
+	"function m(a,b,c){x=Math.abs(a)||b}",
+	"function m(a,b,c){x=Math.trunc(a)===a}",
+	// a local binding named undefined is an ordinary variable
+	"function m(undefined,b,c){return undefined}",
+	"function m(undefined,b,c){f(1);return undefined}",
+	"function m(a,b,c){var undefined=a;return undefined}",
+	"function m(undefined,b,c){x=b===undefined}",
+	"function m(undefined,b,c){x=b==undefined||b==null}",
+	"function m(undefined,b,c){x=b===undefined||b===null}",
+	"function m(undefined,b,c){x=b==null?undefined:c}",
+	"function m(undefined,b,c){x=b===undefined?c:b}",
+	"function m(undefined,b,c){x=undefined?b:c}",
+	"function m(undefined,b,c){x=!undefined}",
+	"function m(undefined,b,c){if(undefined)f(1)}",
+	"function m(undefined,b,c){x=undefined&&f(1)}",
+	"function m(a,b,c){let undefined=b;if(a)return undefined;f(2)}",
+	"function m(a,b,c){x=undefined;y=void 0===undefined}",
+}
+
+// VerifJSBuiltins: calls of standard-library functions the minifier rewrites into operators, and programs that bind
+// the name `undefined` locally, each run by the reference evaluator on symbolic argument values.
+func VerifJSBuiltins(n int) {
+	p := jBuiltinProgs[vChoice("prog", len(jBuiltinProgs))]
+	version := 0
+	if vChoice("target", 2) == 1 {
+		version = 2015
+	}
+	verifJSFunction([]byte(p), version)
 }
